@@ -295,6 +295,12 @@ impl FromStr for PartialDSym {
                     if dset.op_unchecked(i, d) == 0 {
                         let &di = op_i.get(k)
                             .ok_or("incomplete op spec".to_string())?;
+                        if di < 1 || di > spec.size {
+                            return Err("op image out of range".into());
+                        }
+                        if dset.op_unchecked(i, di) != 0 {
+                            return Err("inconsistent op spec".into());
+                        }
                         dset.set(i, d, di);
                         k += 1;
                     }
